@@ -320,6 +320,11 @@ def engine_typestate(ctx: Ctx, f, rule="R05.4", between_generations: bool = True
             cur = parent.get(cur)
         return False
 
+    from .common import opaque_step_helpers
+
+    opaque = opaque_step_helpers(ctx, f)
+    if opaque and (viol or any((s_[0] == "STOPPING" and not s_[1]) or (exit_dirty and s_[0] in ("DIRTY", "FLAGGED") and not s_[1]) for s_ in exits)):
+        return [ctx.ob(rule, f, opaque[0], status=INCONCLUSIVE, detail=f"part of the metaepoch (evaluations, stop-condition consults) runs inside `{norm(opaque[0].func)}`, which this rule does not follow", construct="opaque-helper")], eval_nodes
     for n, s, msg in viol:
         k = (n.id, msg)
         if k in seen_msgs:
@@ -345,7 +350,7 @@ def r05_4(ctx: Ctx, between_generations: bool = True, exit_dirty: bool = False):
     """R05.4 engine typestate on every concrete deme's run_metaepoch (evaluation / GSC consult alternation, stop on outcome true)."""
     obs = []
     for ci in ctx.concrete_demes():
-        f = ctx.prog.lookup_method(ci, "run_metaepoch")
+        f = __import__("hmslint.rules.common", fromlist=["step_method"]).step_method(ctx, ci)
         if f is None or f.is_abstract:
             raise AnalysisError(f"{ci.name} has no run_metaepoch")
         o, eval_nodes = engine_typestate(ctx, f, between_generations=between_generations, exit_dirty=exit_dirty)
